@@ -427,7 +427,7 @@ func ext۰reflect۰Value۰Index(fr *frame, args []value) value {
 
 func ext۰reflect۰Value۰Bool(fr *frame, args []value) value {
 	// Signature: func (reflect.Value) bool
-	return rV2V(args[0]).(bool)
+	return rV2V(args[0]) // bool or Bool term
 }
 
 func ext۰reflect۰Value۰CanAddr(fr *frame, args []value) value {
